@@ -9,12 +9,25 @@
 (*  * every such connection comes from a port inside the range, free, and  *)
 (*    congruent to the shard it reached.                                   *)
 (* (How soon every shard is covered depends on timing and is not judged.)  *)
+(* The node may be reached over IPv4 or IPv6 (v6).                         *)
+(* kind "msb": the node is restarted with other sharding parameters; after *)
+(* each restart, once its pool has a connection to every shard again, the  *)
+(* sharder the session publishes for the node maps tokens to the shards    *)
+(* ScyllaDB assigns under the node's CURRENT parameters.                   *)
 (***************************************************************************)
-EXTENDS Naturals, Sequences, FiniteSets, Json, IOUtils, TLC
+EXTENDS Sharding, Json, IOUtils, TLC
 Rec == ndJsonDeserialize(IOEnv.TRACE)
 VARIABLE l
 SeqSet(s) == {s[i] : i \in 1..Len(s)}
+MsbOK(r) ==
+  \A k \in 1..Len(r.steps) :
+    LET st == r.steps[k]  nr == st.node[1]  msb == st.node[2] IN
+    st.covered >= nr =>
+      /\ st.published = st.node
+      /\ Len(st.shards) > 0
+      /\ \A i \in 1..Len(st.shards) : st.shards[i][2] = ShardOf(st.shards[i][1], nr, msb) /\ st.shards[i][2] < nr
 OK(r) ==
+  IF r.kind = "msb" THEN MsbOK(r) ELSE
   /\ r.start_err = ""
   /\ \A i \in 1..Len(r.accepts) :
        LET p == r.accepts[i][1]  s == r.accepts[i][2] IN
